@@ -21,6 +21,8 @@ func Main(args []string) int {
 	noEv := fs.Bool("no-evidence", false, "do not write evidence files")
 	goarch := fs.String("goarch", "", "analyse the build configuration of this GOARCH (default: host)")
 	replay := fs.String("replay", "", "re-evaluate the obligation recorded in this violation file against the current tree")
+	matrixSeed := fs.String("matrix-seed", "", "dev: with -matrix, only this seeded change (directory name under /verif/seeded)")
+	matrix := fs.Bool("matrix", false, "dev: apply every confirmed seeded change as an overlay and run every property on it; prints which rules report it")
 	battery := fs.String("battery", "", "dev: run the overlay mutants of this property (all, or those whose id contains the value) and print caught/missed")
 	if err := fs.Parse(args); err != nil {
 		return 2
@@ -28,6 +30,9 @@ func Main(args []string) int {
 	t0 := time.Now()
 	if *replay != "" && *prop == "" {
 		*prop = replayProp(*replay)
+	}
+	if *matrix && *prop == "" {
+		*prop = "C01"
 	}
 	if *dump == "" && registry[*prop] == nil {
 		var ids []string
@@ -108,8 +113,8 @@ func Main(args []string) int {
 		}
 		return 0
 	}
-	run := func(p *Program, cfg string) *Ctx {
-		c := NewCtx(p, *prop, *tier)
+	runProp := func(p *Program, cfg, prop string) *Ctx {
+		c := NewCtx(p, prop, *tier)
 		c.Config = cfg
 		for _, e := range p.LoadErrs {
 			c.Broken("load", "type-error", e)
@@ -120,9 +125,13 @@ func Main(args []string) int {
 					c.Broken("engine", "panic", fmt.Sprint(r))
 				}
 			}()
-			registry[*prop](c)
+			registry[prop](c)
 		}()
 		return c
+	}
+	run := func(p *Program, cfg string) *Ctx { return runProp(p, cfg, *prop) }
+	if *matrix {
+		return seedMatrix(*repo, *matrixSeed, runProp)
 	}
 	hostCfg := "linux/amd64"
 	if *goarch != "" {
